@@ -57,7 +57,7 @@ runs_for() { # $1 target $2 tier $3 kind
     wdt)        q=25000;  t=600000;;
     wdl)        q=50000;  t=1200000;;
     attributes) q=300000; t=4000000;;
-    listfile)   q=300000; t=4000000;;
+    listfile)   q=150000; t=2000000;;
     *)          q=20000;  t=500000;;
   esac
   local n; if [ "$2" = quick ]; then n=$q; else n=$t; fi
